@@ -158,12 +158,38 @@ fn group_axioms(gname: &str, mirrors: usize, glides: usize, twofolds: usize) {
         i += 1;
     }
     assert!(nm == mirrors && ng == glides && n2 == twofolds);
+    // C08 (initial state): a site starts at (p, p) with p = -1/2 + 1/(2N) (OccupiedSite::from_wyckoff) in a square cell of side
+    // 4 R N (PackedState::initialise).  Any two different copies, or a copy and a lattice image of it, are then farther apart than
+    // 1/(2N) in fractional units, i.e. farther than 2R: shapes within R of their centres cannot overlap, the initial score is defined.
+    let n = ops.len() as f64;
+    let p = -0.5 + 0.5 / n;
+    let mut k = 0;
+    while k < ops.len() {
+        let mut l = 0;
+        while l < ops.len() {
+            let mut dn = -2;
+            while dn <= 2 {
+                let mut dm = -2;
+                while dm <= 2 {
+                    if !(k == l && dn == 0 && dm == 0) {
+                        let dx = (ops[k][0] * p + ops[k][1] * p + ops[k][2]) - (ops[l][0] * p + ops[l][1] * p + ops[l][2]) + dn as f64;
+                        let dy = (ops[k][3] * p + ops[k][4] * p + ops[k][5]) - (ops[l][3] * p + ops[l][4] * p + ops[l][5]) + dm as f64;
+                        assert!(4. * n * n * (dx * dx + dy * dy) > 1.); // 2N * distance > 1
+                    }
+                    dm += 1;
+                }
+                dn += 1;
+            }
+            l += 1;
+        }
+        k += 1;
+    }
     kani::cover!(true);
 }
 macro_rules! axioms_harness {
     ($name:ident, $g:ident, $m:expr, $gl:expr, $t:expr) => {
         #[kani::proof]
-        #[kani::unwind(6)]
+        #[kani::unwind(7)]
         fn $name() { group_axioms(stringify!($g), $m, $gl, $t); }
     };
 }
